@@ -301,6 +301,25 @@ func stackScenarios(tier string, r *vlib.Rng) []*scen.Scenario {
 			}
 		}
 	}
+	// uploads the inspector cannot hold whole (over 1 MiB), with and without a declared length, that fail over: the next
+	// candidate gets the same document, byte for byte
+	for _, engine := range []string{"sherpa", "olla"} {
+		for _, kind := range []string{"refuse", "reset0"} {
+			for _, up := range []struct {
+				pad     int
+				chunked bool
+			}{{1<<20 + 4096, true}, {3 << 20, true}, {2 << 20, false}, {1 << 20, true}, {70000, true}} {
+				if tier != "thorough" && (kind == "reset0") != (up.pad == 3<<20 || up.pad == 70000) {
+					continue
+				}
+				sc := &scen.Scenario{Engine: engine, Balancer: "priority", Profile: "auto", Method: "POST", Path: "/olla/proxy/v1/chat/completions",
+					ReqBody: fmt.Sprintf(`{"messages":[{"role":"user","content":"u%d"}]}`, r.Intn(1000)), ReqPad: up.pad, ReqChunked: up.chunked, Followup: true}
+				sc.EPs = append(sc.EPs, scen.EPSpec{Name: "A", Prio: 300, Beh: scen.FaultBeh("A", kind, 50, 10, false, "application/json")})
+				sc.EPs = append(sc.EPs, scen.EPSpec{Name: "B", Prio: 200, Beh: scen.OkBeh("B", 200, 40, false, "application/json")})
+				out = append(out, sc)
+			}
+		}
+	}
 	return out
 }
 
